@@ -65,6 +65,8 @@ NestedStringTokenizer::NestedStringTokenizer(const std::string& s, const std::st
   }
   else
   {
+    if (delimiters.empty())
+      throw Exception("NestedStringTokenizer (constructor). A solid delimiter can't be empty.");
     string::size_type index = 0;
     while (index != s.npos)
     {
